@@ -140,8 +140,9 @@ func TestC04Sequences(t *testing.T) {
 	// two (or three) once handlers fired by one publish, the first of which has left the registry
 	// before the publish retires them — it unsubscribes itself, or a plain handler of the same
 	// publish unsubscribes it: every one of them ran once and none is counted afterwards
-	for v := 0; v < 64; v++ {
+	for v := 0; v < 128; v++ {
 		self, janitor, a1, a2, f2, third := v&1 != 0, v&2 != 0, v&4 != 0, v&8 != 0, v&16 != 0, v&32 != 0
+		panicky := v&64 != 0 // the second once handler panics when it runs: it has fired all the same
 		if self == janitor || (self && a1) {
 			continue // exactly one remover; a script runs on synchronous invocations only
 		}
@@ -162,6 +163,10 @@ func TestC04Sequences(t *testing.T) {
 		if f2 {
 			once2.Filter = 1
 		}
+		if panicky {
+			once2.PanicKind = 1 + v%3
+			p.Cfg.PanicHandler = v%2 == 0
+		}
 		p.Ops = append(p.Ops, prog.Op{K: prog.Sub, T: 0, Reg: once2})
 		if third {
 			p.Ops = append(p.Ops, prog.Op{K: prog.Sub, T: 0, Reg: &prog.Reg{Class: 4, Once: true, Ctx: true}})
@@ -171,7 +176,7 @@ func TestC04Sequences(t *testing.T) {
 			p.Ops = append(p.Ops, prog.Op{K: prog.Pub, T: 0, UseCtx: k == 1}, prog.Op{K: prog.Wait}, prog.Op{K: prog.Count, T: 0}, prog.Op{K: prog.Has, T: 0})
 		}
 		h.Exec(idx, p, nil, after)
-		run.Case(fmt.Sprintf("several-once self%v janitor%v a%v/%v f%v third%v", self, janitor, a1, a2, f2, third), true)
+		run.Case(fmt.Sprintf("several-once self%v janitor%v a%v/%v f%v third%v panic%v", self, janitor, a1, a2, f2, third, panicky), true)
 	}
 	// wide registries: more handlers of one type than any small internal capacity; once handlers at
 	// the far end of the list (and everywhere): each fires once and none is counted afterwards
